@@ -72,7 +72,8 @@ struct dispatch_table
                  // try the first guard
                  typedef typename ::boost::mpl::front<Sequence>::type first_row;
                  HandledEnum res = first_row::execute(fsm,region_index,state,evt);
-                 if (HANDLED_TRUE!=res && HANDLED_DEFERRED!=res)
+                 // res is a bit set: a submachine with several regions can return e.g. HANDLED_TRUE | HANDLED_GUARD_REJECT
+                 if (!(res & (HANDLED_TRUE | HANDLED_DEFERRED)))
                  {
                     // if the first rejected, move on to the next one
                     HandledEnum sub_res = 
